@@ -340,6 +340,64 @@ func c13(x *mon.Ctx) {
 			add("value-identifier-octet", fmt.Sprintf("%s/%#02x", e.name, t), "error", base, val, nil)
 		}
 	}
+	// platform certificates carry further sub-extensions (SGX type 1.5, platform instance id 1.6 = 16 octets, configuration 1.7 =
+	// a SEQUENCE): honest ones in any order are exact; a wrongly typed PPID / PCE-ID / FMSPC / TCB placed BEHIND a decodable
+	// element of the same size is an error, never that element's value
+	{
+		extra := func(p *world.Platform) [][]byte {
+			inst := make([]byte, 16)
+			for i := range inst {
+				inst[i] = 0xC0 | byte(i)
+			}
+			return [][]byte{
+				world.Seq(world.OID(6), world.Octets(inst)),
+				world.Seq(world.OID(7), world.Seq(world.Seq(world.OID(7, 1), world.TLV(1, []byte{0xff})), world.Seq(world.OID(7, 2), world.TLV(1, []byte{0})), world.Seq(world.OID(7, 3), world.TLV(1, []byte{0xff})))),
+				world.Seq(world.OID(8), world.Octets([]byte{0xAA, 0xBB})),       // unknown, the size of a PCE-ID
+				world.Seq(world.OID(9), world.Octets([]byte{1, 2, 3, 4, 5, 6})), // unknown, the size of an FMSPC
+			}
+		}
+		for rep := 0; rep < 40; rep++ {
+			p := randPlat(r)
+			top := append(world.SgxTopElems(p, world.SgxTcbElems(p)), extra(p)...)
+			if rep > 0 {
+				r.Shuffle(len(top), func(a, b int) { top[a], top[b] = top[b], top[a] })
+			}
+			add("platform-certificate-extension", fmt.Sprint("honest", rep), "exact", p, world.Seq(top...), nil)
+		}
+		for _, tgt := range []struct {
+			name string
+			idx  int
+		}{{"ppid", 0}, {"tcb", 1}, {"pceid", 2}, {"fmspc", 3}} {
+			for _, tag := range []byte{0x01, 0x05, 0x0a, 0x30, 0x31, 0x80, 0xa0, 0x1b, 0x13} {
+				for _, order := range []string{"extras-first", "extras-last", "shuffled"} {
+					p := randPlat(r)
+					std := world.SgxTopElems(p, world.SgxTcbElems(p))
+					if tgt.name == "tcb" {
+						if tag == 0x30 {
+							continue // that is the right type
+						}
+						std[tgt.idx] = world.Seq(world.OID(2), world.TLV(tag, world.Seq(world.SgxTcbElems(p)...)[4:])) // same content under another identifier
+					} else {
+						bad := append([]byte{}, std[tgt.idx]...)
+						oidLen := 2 + int(bad[3])
+						bad[2+oidLen] = tag
+						std[tgt.idx] = bad
+					}
+					var top [][]byte
+					switch order {
+					case "extras-first":
+						top = append(extra(p), std...)
+					case "extras-last":
+						top = append(std, extra(p)...)
+					default:
+						top = append(extra(p), std...)
+						r.Shuffle(len(top), func(a, b int) { top[a], top[b] = top[b], top[a] })
+					}
+					add("platform-certificate-wrong-type", fmt.Sprintf("%s/%#02x/%s", tgt.name, tag, order), "error", p, world.Seq(top...), nil)
+				}
+			}
+		}
+	}
 	for _, v := range []int64{65536, 65537, 1 << 31, 1 << 40, -1, -32768} {
 		add("pcesvn-out-of-range", fmt.Sprint(v), "error", base, withTcb(16, world.Seq(world.OID(2, 17), world.Int(v))), nil)
 	}
@@ -485,6 +543,8 @@ func c13(x *mon.Ctx) {
 	x.Require("tcb-element-order", 1000, 0, 1000)
 	x.Require("component-out-of-range", 0, 21, 21)
 	x.Require("value-identifier-octet", 0, 1700, 1700)
+	x.Require("platform-certificate-extension", 40, 0, 40)
+	x.Require("platform-certificate-wrong-type", 0, 105, 105)
 	x.Require("pcesvn-out-of-range", 0, 6, 6)
 	x.Require("truncated", 0, 300, 300)
 	x.Require("signed-certificate", 100, 10, 300)
